@@ -147,9 +147,13 @@ def _k(v):
     if isinstance(v, bool):
         return 'b1' if v else 'b0'
     if isinstance(v, int):
+        # one code point per small int: injective and cheap for the solver (CrossHair strings are code point sequences;
+        # rendering a symbolic int in decimal needs z3's int-to-string)
+        if 0 <= v < 0xD800:
+            return 'j' + chr(v)
         return 'i' + str(v) + ';'
     if isinstance(v, str):
-        return 's%d:%s' % (len(v), v)
+        return 's' + chr(len(v)) + ':' + v
     if isinstance(v, bytes):
         return 'y%d:%s' % (len(v), v.decode('latin-1'))
     if v is None:
